@@ -564,6 +564,46 @@ def rewrite_iter_adapters(code, stats):
       R9e  E.iter().filter(|x| C).count()               ->  counting index loop
     Assumed std contract: the adapters visit the elements once, in order."""
     flat = lambda e: re.sub(r"\s+", "", e)
+    # R9j: a lazy adapter chain bound to a local that is consumed by the very next statement
+    # (`let alive = E.into_iter().filter(..); alive.for_each(..)`) is the chain itself (the adapters do
+    # nothing until they are consumed): the binding is inlined so that the rules below apply
+    for _ in range(4):
+        masked = mask_trivia(code)
+        lm_ = re.search(r"let\s+(?:mut\s+)?(\w+)\s*=\s*", masked)
+        found = False
+        for lm_ in re.finditer(r"let\s+(?:mut\s+)?(\w+)\s*=\s*", masked):
+            # end of the let statement: first `;` at depth 0
+            d_ = 0
+            e_ = None
+            for k in range(lm_.end(), len(masked)):
+                ch = masked[k]
+                if ch in "([{":
+                    d_ += 1
+                elif ch in ")]}":
+                    d_ -= 1
+                    if d_ < 0:
+                        break
+                elif ch == ";" and d_ == 0:
+                    e_ = k
+                    break
+            if e_ is None:
+                continue
+            init = code[lm_.end():e_]
+            if not re.search(r"\.\s*(into_iter|iter|iter_mut)\s*\(\s*\)", init) or not re.search(r"\.\s*(filter|map|flatten)\s*\(", init):
+                continue
+            nm_ = lm_.group(1)
+            um_ = re.match(r"\s*%s\s*\.\s*(for_each|count|all|any)\s*\(" % re.escape(nm_), masked[e_ + 1:])
+            if not um_ or len(re.findall(r"\b%s\b" % re.escape(nm_), masked[e_ + 1:])) != 1:
+                continue
+            use_at = e_ + 1 + um_.start() + len(um_.group(0)) - len(um_.group(0).lstrip())
+            ws_ = len(um_.group(0)) - len(um_.group(0).lstrip())
+            s_use = e_ + 1 + ws_
+            code = code[:lm_.start()] + code[e_ + 1:s_use] + init.strip() + code[s_use + len(nm_):]
+            stats["R9"] = stats.get("R9", 0) + 1
+            found = True
+            break
+        if not found:
+            break
     # R9i: `E.drain(..)` (consumed completely by a `for` loop or an adapter chain) = all elements of E, in
     # order, E left empty — the prelude's `drain_all_()`, followed by `.into_iter()`
     for n_ in range(4):
@@ -1649,7 +1689,7 @@ def generate_(template_path, variant, canary=False):
                 body_ = mask_trivia(st_)
                 body_ = body_[body_.index(name) + len(name):]
                 cells_ = sorted(set(re.findall(r"\b(MutRc|MutArc|FlagCell|RefCell|Cell|OnceCell|UnsafeCell|Mutex|RwLock|Atomic\w+|MultiSubscription\w*)\b", body_)))
-                stats.setdefault("plain_values", []).append([name, path, cells_])
+                stats.setdefault("plain_values", []).append([name, path, cells_, [x for x in kv.get("ownertags", "C13").split(",") if x]])
             i += 1
             continue
         if d == "@@type":
